@@ -9,7 +9,7 @@ tiers (default both), timeout_s {quick, thorough}, env {...}.
 import glob, json, os
 
 _D = os.path.join(os.path.dirname(os.path.abspath(__file__)), "units.d")
-UNITS, LEVELS, META = {}, {}, {}
+UNITS, LEVELS, META, DEPS = {}, {}, {}, {}
 for _p in sorted(glob.glob(os.path.join(_D, "*.json"))):
     _j = json.load(open(_p))
     _id = os.path.basename(_p)[:-5]
@@ -18,3 +18,5 @@ for _p in sorted(glob.glob(os.path.join(_D, "*.json"))):
         LEVELS[_id] = _j["level"]
     if _j.get("meta"):
         META[_id] = _j["meta"]
+    if _j.get("deps"):
+        DEPS[_id] = _j["deps"]
